@@ -178,7 +178,7 @@ func resetFor(slots []*slotSpec, o histOpt) string {
 
 func baseReq(c caller, cls int32, name string) *request {
 	return &request{user: []byte(c.id), ulevel: c.level, uid: uidOf(c.id), cls: cls, name: []byte(name),
-		bclass: []byte("CLS "), btitle: []byte("a new board"), bmsNil: true}
+		bclass: []byte("CLS "), btitle: []byte("a new board"), bmsNil: true, auto: ptttype.DEFAULT_AUTOCPLOG}
 }
 
 func withBMs(q *request, bms string) *request {
@@ -254,6 +254,9 @@ func randReq(r *hx.Rand, created []string, nTable int, vac []int) *request {
 		q.level = uint32(r.U64())
 	}
 	q.isGroup = r.Intn(4) == 0
+	if r.Intn(3) == 0 {
+		q.auto = !q.auto
+	}
 	q.chess = uint32([]int{0, 1, 2, 3, 255}[r.Intn(5)])
 	switch r.Intn(5) {
 	case 0:
@@ -269,7 +272,7 @@ func randReq(r *hx.Rand, created []string, nTable int, vac []int) *request {
 func generate() {
 	r := run.R
 	do("layout")
-	do("create 5359534f50 16384 1 1 416c706861 434c5320 74 nil 0 0 0 0") // before any reset: ill-formed
+	do("create 5359534f50 16384 1 1 416c706861 434c5320 74 nil 0 0 0 0 1") // before any reset: ill-formed
 	sysop, brdman, grpop := callers[0], callers[1], callers[2]
 
 	// the recorded upstream behaviour, replayed on every run: a hidden board created by a non-sysop
@@ -313,9 +316,10 @@ func generate() {
 		for _, a := range []uint32{0, aHide, aMask, aHide | aMask, aGroup, aCplog, aGroup | aCplog | aMask, 0xffffffff} {
 			for _, lv := range []uint32{0, uint32(ptttype.PERM_BM), 0x1234} {
 				do(resetFor(mkTable(nil, 3, nil, false), histOpt{}))
-				for _, g := range []bool{false, true} {
-					q := baseReq(c, 1, map[bool]string{false: "Alpha", true: "b2"}[g])
+				for k, g := range []bool{false, true, false, true} {
+					q := baseReq(c, 1, []string{"Alpha", "b2", "x_y", "a.b"}[k])
 					q.attr, q.level, q.isGroup = a, lv, g
+					q.auto = (k < 2) == ptttype.DEFAULT_AUTOCPLOG // the default configuration first, then the other one
 					do(q.line())
 				}
 			}
@@ -364,7 +368,8 @@ func generate() {
 	}
 	// ---- E5c: bbs.CreateBoard (string arguments, the caller's level from .PASSWDS) ---------------------
 	bb := func(user string, cls int32, name string, bms ...string) *bbsArgs {
-		a := &bbsArgs{userID: []byte(user), cls: cls, name: []byte(name), bclass: []byte("CLS "), btitle: []byte("via bbs")}
+		a := &bbsArgs{userID: []byte(user), cls: cls, name: []byte(name), bclass: []byte("CLS "), btitle: []byte("via bbs"),
+			auto: ptttype.DEFAULT_AUTOCPLOG}
 		for _, b := range bms {
 			a.bms = append(a.bms, []byte(b))
 		}
@@ -388,6 +393,14 @@ func generate() {
 		a.attr = aHide
 		do(a.line())
 		do(bb("SYSOP", 1, "b2", l...).line())
+	}
+	for _, at := range []uint32{0, aCplog, aCplog | aGroup, aCplog | aHide} { // the configuration the build does not default to
+		do(resetFor(mkTable(nil, 3, nil, true), histOpt{}))
+		for k, g := range []bool{false, true} {
+			a := bb("brdman", 1, []string{"Alpha", "b2"}[k])
+			a.attr, a.isGroup, a.auto = at, g, !ptttype.DEFAULT_AUTOCPLOG
+			do(a.line())
+		}
 	}
 	{
 		do(resetFor(mkTable(nil, MAXB, nil, true), histOpt{}))
@@ -474,7 +487,7 @@ func generate() {
 			q := randReq(r, created, n, vac)
 			if r.Intn(4) == 0 { // the same request through bbs.CreateBoard
 				a := &bbsArgs{userID: q.user, cls: q.cls, name: q.name, bclass: q.bclass, btitle: q.btitle, attr: q.attr,
-					level: q.level, chess: q.chess, isGroup: q.isGroup}
+					level: q.level, chess: q.chess, isGroup: q.isGroup, auto: q.auto}
 				if !q.bmsNil {
 					for _, seg := range strings.Split(string(cstrOf(q.bms)), "/") {
 						if len(seg) <= 16 {
@@ -511,12 +524,13 @@ func generate() {
 		"create", "reset", "reset - - - - 1 0 1", "reset - - - - 1 0 0 extra", "frobnicate 1 2",
 		good + " 1", strings.Replace(good, " nil ", " NIL ", 1), strings.Replace(good, "create 53", "create 5", 1),
 		strings.Replace(good, " 416c706861 ", " 416c7068610000000000000000aa ", 1), // 14-byte name
-		"create 5359534f50 4294967296 1 1 416c706861 434c5320 74 nil 0 0 0 0",      // level beyond uint32
-		"create 5359534f50 16384 1 1 416c706861 434c5320 74 nil 0 0 256 0",         // chess beyond a byte
-		"create 5359534f50 16384 1 1 416c706861 434c5320 74 nil 0 0 0 2",
-		"create 5359534f50 16384 1 2147483648 416c706861 434c5320 74 nil 0 0 0 0",
+		"create 5359534f50 4294967296 1 1 416c706861 434c5320 74 nil 0 0 0 0 1",    // level beyond uint32
+		"create 5359534f50 16384 1 1 416c706861 434c5320 74 nil 0 0 256 0 1",       // chess beyond a byte
+		"create 5359534f50 16384 1 1 416c706861 434c5320 74 nil 0 0 0 2 1", "create 5359534f50 16384 1 1 416c706861 434c5320 74 nil 0 0 0 0 2",
+		"create 5359534f50 16384 1 1 416c706861 434c5320 74 nil 0 0 0 0",
+		"create 5359534f50 16384 1 2147483648 416c706861 434c5320 74 nil 0 0 0 0 1",
 		"reset zz - - - 1 0 0", "reset - - - - 1 256 0", "reset - - - - 1 0 1 c:41:-:-:0:0:0", "reset - - - - 1 0 1 x:41:-:-:0:0:0:0",
-		"layout now", "bcreate", "bcreate 6162 1 6162 - - - 0 0 0", "bcreate 6162 1 6162 - - zz 0 0 0 0", "newbm", "newbm zz", "newbm 6162 6364",
+		"layout now", "bcreate", "bcreate 6162 1 6162 - - - 0 0 0 0", "bcreate 6162 1 6162 - - zz 0 0 0 0 1", "bcreate 6162 1 6162 - - - 0 0 0 0 x", "newbm", "newbm zz", "newbm 6162 6364",
 	} {
 		do(l)
 	}
